@@ -71,7 +71,7 @@ PINF = E('inf', 1)                   # +infinity as a bound component of a (vect
 NINF = E('inf', -1)
 
 
-LEAVES = {'c', 'x', 'u', 'z', 'p', 'v', 't', 'T', 't0', 'tf', 'DT', 'DTc', 'q', 'inf', 'xg', 'vg'}     # 'xg' / 'vg': a whole (vector / matrix valued) declared state / variable; MX reading only
+LEAVES = {'c', 'x', 'u', 'z', 'p', 'v', 't', 'T', 't0', 'tf', 'DT', 'DTc', 'q', 'inf', 'xg', 'vg', 'ug', 'cvec'}     # 'cvec': a constant column vector handed over as ONE numeric matrix (DM); 'xg' / 'vg' / 'ug': a whole (vector / matrix valued) declared state / variable / control; MX reading only
 WRAP = {'at_t0', 'at_tf', 'integral', 'integral_control', 'sum', 'wsum', 'offset', 'der', 'inf_der'}
 
 
@@ -82,7 +82,7 @@ def show(e):
         return str(e.a[0])
     if e.op == 'inf':
         return 'inf' if e.a[0] > 0 else '-inf'
-    if e.op in ('x', 'u', 'z', 'q', 'xg'):
+    if e.op in ('x', 'u', 'z', 'q', 'xg', 'ug'):
         return '%s%d' % (e.op, e.a[0])
     if e.op == 'vg':
         return 'v[%s]' % e.a[0]
@@ -237,6 +237,7 @@ class Spec:
     algscale: Any = None
     xshape: Any = None      # list of (rows, cols) partitioning nx into declared states; None => scalars
     ode_broadcast: Any = None   # {state group index: E}: that (vector valued) state is given ONE scalar right-hand side (repeated); spec.ode lists it per element
+    ushape: Any = None      # list of sizes partitioning nu into declared (vector valued) controls; None => scalars
     zshape: Any = None      # list of sizes partitioning nz into declared (vector valued) algebraic variables; None => scalars
     shared_freetime: bool = False   # t0 and T (both free) are declared through ONE FreeTime object (same guess)
     initial: Any = field(default_factory=list)   # list of (target E leaf, value) for set_initial
